@@ -25,7 +25,9 @@ fn sentinels(node: &Node, owner: Option<usize>, out: &mut Vec<(usize, String)>) 
         Node::Obj(ms, _) => {
             for m in ms {
                 let o = match &m.mark { Mark::Marked { id, .. } => Some(*id), _ => owner };
-                if let Some(o) = o { out.push((o, m.key.clone())); }
+                // names are sentinels only when they are unique ones (`KEY*n*`); a business claim named like a
+                // registered claim (`status`, `iss`, ...) may share its name with a clear one: its value is searched
+                if let Some(o) = o { if m.key.contains('*') { out.push((o, m.key.clone())); } }
                 sentinels(&m.node, o, out);
             }
         }
